@@ -142,12 +142,17 @@ class _W:
             a["pname"], a["oct"] = step.lower(), octave
             if k == "g":
                 a["grace"] = ev.get("gt", "unacc")
+            xs = dict(map(tuple, ev.get("xs", [])))
+            if 0 in xs:
+                a["staff"] = xs[0]              # the note is written on another staff than the one holding its layer
             child = self.accid(alter, a)
             return f"<note{_attrs(a)}>{child}</note>" if child else f"<note{_attrs(a)}/>"
         # chord
         notes = []
         for pi, p in enumerate(ev["p"]):
             na = {"xml:id": f"{ev['id']}n{pi}", "pname": p[0].lower(), "oct": p[2]}
+            if pi in dict(map(tuple, ev.get("xs", []))):
+                na["staff"] = dict(map(tuple, ev["xs"]))[pi]      # @staff on this note only: its siblings stay on the layer's staff
             if self.o.get("chord_note_dur"):
                 na["dur"] = a["dur"]
                 if ev.get("d"):
